@@ -44,8 +44,22 @@ def projections(prog: Program, rep: Report, C: ClassInfo, a: str, b: str, clause
             if len(ps) >= 3 else None
         ok = len(rets) == 1 and rets[0][1] is not None and rets[0][1][0] == "sub" and rets[0][1][2] == ("const", k)
         call_ok = False
+        ct = rets[0][1][1] if ok else None
+        if not ok and len(rets) == 1:
+            # 'a, b = self.getitem_ab(idx, ctx=ctx); return a'  - component k by tuple unpacking
+            rv = pa.ret_ast(rets[0][0])[0]
+            if isinstance(rv, ast.Name):
+                defs = pa.cfg.reaching().get(rets[0][0], {}).get(rv.id, set())
+                if len(defs) == 1:
+                    (d,) = defs
+                    st = pa.cfg.nodes[d].ast if pa.cfg.nodes[d].kind == "stmt" else None
+                    if isinstance(st, ast.Assign) and len(st.targets) == 1 and isinstance(st.targets[0], ast.Tuple) and \
+                            isinstance(st.value, ast.Call) and len(st.targets[0].elts) == 2 and \
+                            [_name(e) for e in st.targets[0].elts].index(rv.id) == k if rv.id in [
+                                _name(e) for e in st.targets[0].elts] else False:
+                        ok = True
+                        ct = pa.sym.term(st.value, d)
         if ok:
-            ct = rets[0][1][1]
             call_ok = ct[0] == "call" and (ct[1] == ("attr", ("param", ps[0]), f"getitem_{a}{b}") or
                                            ct[1] == ("self", f"getitem_{a}{b}")) and \
                 (ct[2][:1] == (("param", ps[1]),) or ("idx", ("param", ps[1])) in ct[3]) and \
@@ -103,22 +117,39 @@ def run(prog: Program, rep: Report, tier: str):
                f"draws are made on several generators ({', '.join(sorted(gvars))}): data and label decisions can come from "
                f"different streams", clause="C11.1")
     assume = seed_not_none_assumption(fa)
-    if gvars:
+    if gvars and draws:
         g = sorted(gvars)[0]
-        for n, var, val in fa.stores():
-            if var != g or val is None:
+        # which definitions of the generator variable reach the first draw - with a seed, and without one (each on the CFG
+        # pruned by that assumption, so 'rng = make(seed, idx); if rng is None: rng = <fallback>' is followed correctly)
+        for tag, assumption in (("seeded", assume), ("unseeded", {k: (not v) for k, v in assume.items()})):
+            pa = fa.prune(assumption)
+            first = [n for n, c in draws if n in pa.cfg.nodes]
+            if not first:
+                rep.unk("G4.one-draw", fi, f"{tag}-generator", "no draw on this configuration's paths", clause="C11.1")
                 continue
-            t = fa.sym.term(val, n)
-            conds = fa.conds_at(n)
-            seeded_branch = any(c == ("not", ("is", tuple(sorted((("const", None), ("self", "seed")), key=repr)))) for c in conds)
-            if seeded_branch:
-                gens = [(m, c, s) for m, c, s in generator_constructions(fa) if m == n]
-                ok, why = seed_form(gens[0][2], ps[1], assume=assume) if gens else (False, "no generator constructed with a seed")
-                rep.decide(ok, "G4.one-draw", fi, "seeded-generator", why, why, line=fa.line(n), clause="C11.1")
-            else:
-                ok = t[0] == "call" and t[1][0] == "global" and t[1][1].endswith("get_rng_from_global")
-                rep.decide(ok, "G4.one-draw", fi, "unseeded-generator", "get_rng_from_global() when no seed is configured",
-                           f"without a seed the generator is {show(t)}", line=fa.line(n), clause="C11.1", nontrivial=False)
+            d0 = min(first)
+            reach = pa.cfg.reaching().get(d0, {}).get(g, set())
+            verdicts = []
+            for d in sorted(reach):
+                val = pa.cfg.def_value(d, g)
+                if val is None:
+                    verdicts.append((None, "generator bound by an unrecognised statement", d))
+                    continue
+                t = pa.sym.term(val, d)
+                if tag == "seeded":
+                    gens = [(m, c, s_) for m, c, s_ in generator_constructions(pa) if m == d]
+                    ok, why = seed_form(gens[0][2], ps[1], assume=assume) if gens else (False, f"with a seed the generator is {show(t)[:80]}, "
+                                                                                        "not one constructed from (seed, idx)")
+                else:
+                    ok = t[0] == "call" and t[1][0] == "global" and t[1][1].endswith("get_rng_from_global")
+                    why = "get_rng_from_global() when no seed is configured" if ok else f"without a seed the generator is {show(t)[:80]}"
+                verdicts.append((ok, why, d))
+            ok_all = bool(verdicts) and all(v[0] is True for v in verdicts)
+            bad = [v for v in verdicts if v[0] is False]
+            rep.decide(False if bad else (True if ok_all else None), "G4.one-draw", fi, f"{tag}-generator",
+                       verdicts[0][1] if verdicts else "no generator reaches the first draw",
+                       "; ".join(v[1] for v in (bad or verdicts)) or "no generator reaches the first draw",
+                       line=fa.line(verdicts[0][2]) if verdicts else fi.node.lineno, clause="C11.1", nontrivial=(tag == "seeded"))
 
     # ---- partner -------------------------------------------------------------------------------------------------------
     rep.rule("G9.one-partner", "the second sample's data and label are loaded from self.dataset with one and the same partner "
@@ -143,7 +174,18 @@ def run(prog: Program, rep: Report, tier: str):
         same = par_x[0][2] == par_c[0][2]
         pt = par_x[0][2]
         want = ("call", ("attr", None, "integers"), (("call", ("global", "len"), (("param", ps[0]),), ()),), ())
-        drawn = pt[0] == "call" and pt[1][0] == "attr" and pt[1][2] == "integers" and len(pt[2]) == 1 and pt[2][0] == want[2][0]
+        hi_ = None
+        if pt[0] == "call" and pt[1][0] == "attr" and pt[1][2] == "integers":
+            kw_ = {k_: v_ for k_, v_ in pt[3] if not str(k_).startswith("#")}
+            if len(pt[2]) == 1 and not kw_:
+                hi_ = pt[2][0]
+            elif len(pt[2]) == 2 and pt[2][0] == ("const", 0):
+                hi_ = pt[2][1]
+            elif "high" in kw_ and (kw_.get("low", pt[2][0] if pt[2] else ("const", 0)) == ("const", 0)):
+                hi_ = kw_["high"]
+            elif "low" in kw_ and not pt[2] and "high" not in kw_:
+                hi_ = kw_["low"]
+        drawn = hi_ is not None and hi_ == want[2][0]
         rep.decide(same and drawn, "G9.one-partner", fi, "partner-index",
                    "x2 and cls2 are loaded with the same index, drawn as rng.integers(len(self))",
                    ("the partner's data and label are loaded with different indices: the label weights describe another "
@@ -154,24 +196,21 @@ def run(prog: Program, rep: Report, tier: str):
     rep.rule("G6.convex-mix", "data and label are mixed as own.mul_(L).add_(partner.mul_(1 - L)) with L the drawn lambda (or a "
              "view of it) - the same lambda variable for both -, own = the value loaded with idx, partner = the value loaded "
              "with the partner index (possibly shape-unified)")
+    from ..rules.mixes import inplace_mixes, split_scaled
     mixes = []
-    for n, c in fa.calls_named("add_"):
-        f = c.func
-        if isinstance(f.value, ast.Call) and isinstance(f.value.func, ast.Attribute) and f.value.func.attr == "mul_" \
-                and len(c.args) == 1 and isinstance(c.args[0], ast.Call) and isinstance(c.args[0].func, ast.Attribute) \
-                and c.args[0].func.attr in ("mul_", "mul"):
-            mixes.append((n, c))
+    for n, c, own_, L_, P_ in inplace_mixes(fa):
+        sp = split_scaled(fa, P_, n)
+        if sp is not None:
+            mixes.append((n, c, own_, L_, sp[0], sp[1]))
     rep.floor("mix statements in getitem_xclass", len(mixes), 2)
     lam_vars = set()
     roles = {}
     if own_x and own_c and par_x and par_c:
         roles = {own_x[0][1]: ("x", "own"), own_c[0][1]: ("class", "own"), par_x[0][1]: ("x", "partner"),
                  par_c[0][1]: ("class", "partner")}
-    for n, c in mixes:
-        own = _base_name(c.func.value.func.value)
-        partner = _base_name(c.args[0].func.value)
-        L1 = c.func.value.args[0]
-        L2 = c.args[0].args[0]
+    for n, c, own_e, L1, partner_e, L2 in mixes:
+        own = _base_name(fa.expand(own_e, n))
+        partner = _base_name(fa.expand(partner_e, n))
         L = term_to_poly(fa.sym.term(L1, n))
         problems = []
         if not (len(L.terms) == 1 and len(L.atoms()) == 1 and L.coeff_of(next(iter(L.atoms()))).const_value() == 1):
@@ -193,8 +232,7 @@ def run(prog: Program, rep: Report, tier: str):
         # shape unification before the mix
         unify = [n for n, nd in cfg.nodes.items() if nd.kind == "test" and any(
             x == ("self", "mixup_unify_shapes_mode") for x in subterms(fa.sym.term(nd.ast, n)))]
-        first_mix = min(n for n, _ in mixes)
-        ok = bool(unify) and all(cfg.must_pass(set(unify), src=cfg.entry, dst=n) for n, _ in mixes)
+        ok = bool(unify) and all(cfg.must_pass(set(unify), src=cfg.entry, dst=m_[0]) for m_ in mixes)
         rep.decide(ok, "G6.convex-mix", fi, "unify-before-mix", "every mixing path passes the shape unification first",
                    "a mixing path bypasses the shape check / unification", clause="C11.3")
 
@@ -205,12 +243,15 @@ def run(prog: Program, rep: Report, tier: str):
     rets = [(n, fa.ret_ast(n)[0]) for n, _ in fa.returns()]
     for n, rv in rets:
         ok = None
-        if isinstance(rv, ast.Tuple) and len(rv.elts) == 2 and isinstance(rv.elts[1], ast.Name):
-            lv = rv.elts[1].id
-            reach = cfg.reaching().get(n, {}).get(lv, set())
-            ok = bool(reach)
-            for d in reach:
-                val = cfg.def_value(d, lv)
+        if isinstance(rv, ast.Tuple) and len(rv.elts) == 2:
+            if isinstance(rv.elts[1], ast.Name):
+                lv = rv.elts[1].id
+                reach = cfg.reaching().get(n, {}).get(lv, set())
+                cands = [(cfg.def_value(d, lv), d) for d in reach]
+            else:
+                cands = [(rv.elts[1], n)]  # the encoded label is built in the return expression itself
+            ok = bool(cands)
+            for val, d in cands:
                 t = fa.sym.term(val, d) if val is not None else None
                 good = t is not None and t[0] == "call" and t[1][0] == "global" and t[1][1].endswith("to_one_hot_vector")
                 if good:
